@@ -136,9 +136,12 @@ func compareVersionParts(a, b []string) int {
 			bPart = "0" // Missing parts are treated as 0
 		}
 
-		// Compare parts using natural ordering
+		// Compare parts using natural ordering. Textually different parts can
+		// still be equal ("01" and "1"); only a real difference decides.
 		if aPart != bPart {
-			return naturalCompare(aPart, bPart)
+			if cmp := naturalCompare(aPart, bPart); cmp != 0 {
+				return cmp
+			}
 		}
 	}
 
